@@ -251,7 +251,7 @@ def run_case(case):
     desc = lambda: "alphabet=%r fontname=%r forms=%r la=%s sink=%s strip=%r" % (  # noqa: E731
         case["alphabet"], case["fontname"], [f["name"] for f in case.get("forms", [])], case["la"], case["sink"], case["strip"])
     sink = case["sink"]
-    codec = None if sink == "str" else sink
+    codec = None if sink.startswith("str") else sink
     if case["output"] == "text":
         want = expected_text(ref)
         try:
@@ -259,6 +259,16 @@ def run_case(case):
                 fp = io.StringIO()
                 extract_text_to_fp(io.BytesIO(pdf), fp, output_type="text", laparams=la)
                 got = fp.getvalue()
+            elif sink.startswith("str:"):
+                # a text sink receives text: the codec argument has nothing to encode, whatever it can represent
+                fp = io.StringIO()
+                extract_text_to_fp(io.BytesIO(pdf), fp, output_type="text", codec=sink[4:], laparams=la)
+                got = fp.getvalue()
+                if la is not None:
+                    t2 = extract_text(io.BytesIO(pdf), laparams=la, codec=sink[4:])
+                    if t2 != want:
+                        return Outcome(classes, nt, fail="extract_text(codec=%r) differs from the layout tree: %r vs %r; %s" % (
+                            sink[4:], t2[:60], want[:60], desc()))
             else:
                 fp = io.BytesIO()
                 extract_text_to_fp(io.BytesIO(pdf), fp, output_type="text", codec=codec, laparams=la)
@@ -363,6 +373,8 @@ def cases(draw):
     fontname = draw(st.sampled_from(["Plain", "A&B", "F<1>", 'Q"x', "it's", "Ünï", "a&lt;b", "Sale%Off", "100%%", "%s%d", "Half%", "{0}{x}", "a\\b"]))
     allchars = "".join(alphabet)
     sinks = ["str", "utf-8", "utf-16", "utf-16-le"]
+    if output == "text":
+        sinks += ["str:ascii", "str:latin-1", "str:cp437"]
     if output == "xml":
         allchars += fontname + "".join(names)
     for c in ("latin-1", "cp1252"):
